@@ -52,6 +52,10 @@ def type_of(c):
         if c['facet'] == 'lelt':
             return {'k': 'prim', 'p': 'DateTime', 'facets': {'le': B, 'lt': {'dt': [2020, 1, 1, 1, 0, 0, 0, 0]}}}
         return {'k': 'prim', 'p': 'DateTime', 'facets': {c['facet']: B}}
+    if g == 'decbound':
+        import decimal
+        f = {'le10_5': {'le': decimal.Decimal('10.5')}, 'lt1': {'lt': decimal.Decimal(1)}, 'ge10_5': {'ge': decimal.Decimal('10.5')}, 'gt1': {'gt': decimal.Decimal(1)}}[c['facet']]
+        return {'k': 'prim', 'p': 'Decimal', 'facets': f}
     if g == 'zone':
         return {'k': 'prim', 'p': 'DateTime', 'facets': {c['facet']: {'dt': [2020, 1, 1, 0, 0, 0, 0, 0]}, 'as_timezone': {'fixed': 120}}}
     if g == 'attrreq':
@@ -103,6 +107,8 @@ def value_of(c, fam):
         from pytz import FixedOffset, utc
         inst = BOUND.replace(tzinfo=utc) + datetime.timedelta(minutes=c['delta'])
         return inst.astimezone(FixedOffset(c['off']))
+    if g == 'decbound':
+        return E.Raw(c['lit']) if text else c['lit']          # (a decimal travels as its text in the dict documents)
     if g == 'zone':
         from pytz import utc
         inst = BOUND + datetime.timedelta(minutes=c['delta'])
@@ -146,7 +152,7 @@ def positions_of(c, fam):
     if g == 'objarr':
         return ['arg']
     pos = ['arg', 'field']
-    if g in ('num', 'big', 'str', 'enum', 'date', 'lex', 'time', 'zone'):
+    if g in ('num', 'big', 'str', 'enum', 'date', 'lex', 'time', 'zone', 'decbound'):
         pos.append('array')
         pos.append('rep')
         pos.append('repfield')
